@@ -48,6 +48,9 @@ type C19Plan struct {
 	Policy    string   `json:"policy,omitempty"`
 	Resources int      `json:"resources,omitempty"`
 	Losses    []string `json:"losses,omitempty"` // idle | inflight | between-phases
+	// RegLoss k > 0: the connection dies while the RegisterRM request of the k-th
+	// resource is in flight (the client has the resource, the coordinator not yet)
+	RegLoss int `json:"reg_loss,omitempty"`
 	Tape      []int    `json:"tape"`
 }
 
@@ -110,6 +113,9 @@ func genC19(seed uint64, tier, mode string) *C19Plan {
 		n := g.Range(1, 3)
 		for i := 0; i < n; i++ {
 			p.Losses = append(p.Losses, simkit.Pick(g, []string{"idle", "inflight", "between-phases"}))
+		}
+		if g.Prob(0.25) {
+			p.RegLoss = g.Range(1, 3)
 		}
 	}
 	return p
@@ -370,19 +376,38 @@ func c19Reconnect(seed uint64, tape *simkit.Tape, plan *C19Plan, res *Result) {
 	var acts []*c19Action
 	var proxies []*tcc.TCCServiceProxy
 	regDone := false
+	if plan.RegLoss > 0 && plan.RegLoss <= nres {
+		tc.Rules = append(tc.Rules, simtc.Rule{Code: simtc.TRegRM, Nth: tc.CountOf(simtc.TRegRM) + plan.RegLoss, Action: simtc.ActClose})
+		sim.Fault("session-loss-during-registration")
+	}
 	sim.Go("register", func() {
 		defer func() { recover(); regDone = true }()
 		for i := 0; i < nres; i++ {
 			a := &c19Action{name: fmt.Sprintf("c19-action-%d", i)}
 			p, err := tcc.NewTCCServiceProxy(a)
-			if err == nil {
+			// a registration whose request died with the connection still leaves
+			// the application with its proxy: the resource is the client's from then on
+			if err == nil || (p != nil && plan.RegLoss == i+1) {
 				acts = append(acts, a)
 				proxies = append(proxies, p)
 			}
 		}
 	})
 	t0 := sim.Now()
-	sim.Run(func() bool { return regDone || sim.Now()-t0 > 100*time.Second })
+	sim.Run(func() bool { return regDone || sim.Now()-t0 > 200*time.Second })
+	tc.Rules = nil
+	if plan.RegLoss > 0 {
+		// the reconnect and the re-announcement
+		tr := sim.Now()
+		sim.Run(func() bool {
+			for _, s := range net.Sessions() {
+				if !s.IsClosed() && tc.SessionIsTM(s.SimID()) && sim.Enabled() == 0 && sim.Now()-tr > 10*time.Second {
+					return true
+				}
+			}
+			return sim.Now()-tr > 120*time.Second
+		})
+	}
 	if !regDone || len(acts) != nres {
 		sim.Violate("C19", "setup", "resource-registration-failed", "could not register %d TCC resources on a healthy session", nres)
 		finishResult(res, sim)
